@@ -41,9 +41,15 @@ class Meter:
         self._saved: list = []
 
     def __enter__(self):
+        """Installs the counters.  Every hook is optional: when an internal name it needs does not exist (the module was
+        restructured), the hook is skipped and recorded in `degraded`; the implementation-independent measure `calls`
+        (number of Python-level and builtin calls made while the script runs) is always available."""
         import itertools as real
+        import sys
 
         meter = self
+        self.degraded: list = []
+        self.calls = 0
 
         class Proxy:
             def __getattr__(self, name):
@@ -61,22 +67,34 @@ class Meter:
                     meter.items += len(t)
                     yield t
 
-        self._saved.append((self.sym, "itertools", self.sym.itertools))
-        self.sym.itertools = Proxy()
-        nul = self.sym.NullaryOperator
-        orig_init = nul.__init__
+        if getattr(self.sym, "itertools", None) is real:
+            self._saved.append((self.sym, "itertools", self.sym.itertools))
+            self.sym.itertools = Proxy()
+        else:
+            self.degraded.append("itertools")
+        nul = getattr(self.sym, "NullaryOperator", None)
+        if nul is not None:
+            orig_init = nul.__init__
 
-        def init(s, values):
-            orig_init(s, values)
-            meter.leaf += len(s._value)
+            def init(s, values):
+                orig_init(s, values)
+                try:
+                    meter.leaf += len(s._value)
+                except Exception:  # noqa: BLE001
+                    pass
 
-        self._saved.append((nul, "__init__", orig_init))
-        nul.__init__ = init
+            self._saved.append((nul, "__init__", orig_init))
+            nul.__init__ = init
+        else:
+            self.degraded.append("NullaryOperator")
         # NullaryOperator.expand merely copies an explicit value set (e.g. the residues returned by `%`): not counted
         for name in ("PaddingOperator", "ConcatenationOperator", "RepetitionOperator",
                      "RangeRepetitionOperator", "UnionOperator", "MemoizationOperator"):
-            cls = getattr(self.sym, name)
-            orig = cls.expand
+            cls = getattr(self.sym, name, None)
+            orig = getattr(cls, "expand", None) if cls is not None else None
+            if orig is None:
+                self.degraded.append(name + ".expand")
+                continue
 
             def make(orig):
                 def expand(s):
@@ -86,15 +104,25 @@ class Meter:
 
             self._saved.append((cls, "expand", orig))
             cls.expand = make(orig)
+
+        def prof(frame, event, arg):
+            if event == "call" or event == "c_call":
+                meter.calls += 1
+
+        self._prof_prev = sys.getprofile()
+        sys.setprofile(prof)
         return self
 
     def __exit__(self, *a):
+        import sys
+
+        sys.setprofile(self._prof_prev)
         for obj, name, val in reversed(self._saved):
             setattr(obj, name, val)
         self._saved = []
 
     def snapshot(self):
-        return (self.items, self.leaf, self.expands)
+        return (self.items, self.leaf, self.expands, self.calls)
 
 
 def script(pydsdl, t) -> dict:
@@ -113,8 +141,9 @@ def script(pydsdl, t) -> dict:
         out.append(hash(ty) == hash(ty2))
         total = m.snapshot()
         wall = time.time() - t0
+        degraded = list(m.degraded)
     return {"build_items": build[0], "build_leaf": build[1], "items": total[0] - build[0], "leaf": total[1] - build[1],
-            "expands": total[2], "wall": wall, "answers": out}
+            "expands": total[2], "wall": wall, "answers": out, "calls": total[3], "soft_degraded": degraded}
 
 
 def scale(t, level: int, rng):
@@ -243,6 +272,10 @@ class CostSuite(common.Suite):
                 return "work grows with capacity: %s is %d for capacities just above 2**32 and %d for capacities up to 2**63" % (key, m[key], b[key])
             # (capacities of a few hundred get narrower length prefixes, hence other residues: their work is compared
             #  with the model's cost only, see compare())
+        # implementation-independent measure: the number of Python-level + builtin calls made by the whole script; the two
+        # scales differ in nothing but the repetition counts, so symbolic analysis makes (up to noise) the same calls
+        if b.get("calls", 0) > 1.05 * m.get("calls", 0) + 200:
+            return "work grows with capacity: the query script makes %d calls for capacities just above 2**32 and %d for capacities up to 2**63" % (m.get("calls", 0), b.get("calls", 0))
         if b["items"] + b["leaf"] + b["build_items"] + b["build_leaf"] > WORK_BUDGET:
             return "analysis enumerated %d items (budget %d)" % (b["items"] + b["leaf"] + b["build_items"] + b["build_leaf"], WORK_BUDGET)
         if max(a["wall"], b["wall"], m["wall"]) > TIME_BUDGET_S:
@@ -273,6 +306,8 @@ class CostSuite(common.Suite):
             yield "has:" + k
         yield "depth:%d" % L.tdepth(case["ty"])
         if impl.get("res") == "ok":
+            for dname in impl["b"].get("soft_degraded", []):
+                yield "counter-unavailable:" + dname
             w = impl["b"]["items"]
             yield "work:" + ("0" if w == 0 else "<100" if w < 100 else "<10k" if w < 10000 else ">=10k")
 
